@@ -278,6 +278,13 @@ func collectUnionArities(env *dsl.Environment) []int {
 					}
 					self.Visit(tc.OldType())
 				}
+
+				// removed steps are still written to / read from streams of the old version
+				for _, step := range change.StepsRemoved {
+					if step != nil {
+						self.Visit(step.Type)
+					}
+				}
 			}
 			self.VisitChildren(node)
 
@@ -295,6 +302,15 @@ func collectUnionArities(env *dsl.Environment) []int {
 								continue
 							}
 							self.Visit(tc.OldType())
+						}
+
+						// removed fields are still written to / read from streams of the old version
+						if oldRecord, ok := change.PreviousDefinition().(*dsl.RecordDefinition); ok {
+							for i, field := range oldRecord.Fields {
+								if i < len(change.FieldRemoved) && change.FieldRemoved[i] {
+									self.Visit(field.Type)
+								}
+							}
 						}
 					case *dsl.NamedTypeChange:
 						if tc := change.TypeChange; tc != nil {
